@@ -41,7 +41,25 @@ def plan(tier, seed):
                       "cfg_over": {"max_T": 3 if tier == "quick" else 5, "n_cS": 1 + (i % 3 == 2)},
                       "force": {"log_grid": False}, "kind": "int_nodes",
                       "agents": 24 if tier == "quick" else 128, "env": {"VERIF_X64": "1"}})
+    # the same money in other units: utility multiplied by a very small / very large constant U
+    # (values of 1e-14 or 1e290 are finite, legitimate numbers); the real code runs the scaled
+    # model, the reference the unscaled one, and everything reported is divided by U before judging
+    for i in range(8 if tier == "quick" else 80):
+        cases.append({"index": i, "seed": [seed, 63, i], "cfg": "quick" if tier == "quick" else "thorough",
+                      "cfg_over": {"max_T": 3 if tier == "quick" else 5, "cont_transition": "identity" if i % 2 else None},
+                      "force": {"poison": False}, "kind": "unit_scale", "unit": [1e-14, 1e290, 1e-30, 1e200][i % 4],
+                      "agents": 24 if tier == "quick" else 128, "env": {"VERIF_X64": "1"}})
     return cases
+
+
+def _scaled_utility(desc, U):
+    import copy
+
+    d = copy.deepcopy(desc)
+    for f in d["functions"]:
+        if f[0] == "utility":
+            f[2] = f"{U!r} * ({f[2]})"
+    return d
 
 
 def _integer_nodes(desc, rng):
@@ -79,14 +97,22 @@ def run_case(case):
                 init[s_] = np.asarray(init[s_]).astype(np.int64)
                 cnt["c06_int_typed_state_columns"] = cnt.get("c06_int_typed_state_columns", 0) + 1
     seed = int(rng.integers(0, 2**31 - 1))
+    U = float(case.get("unit", 1.0))
+
+    def unscale(df):
+        return df.assign(value=df["value"] / U) if U != 1.0 and "value" in df.columns else df
+
     try:
-        model = dsl.build_lcm_model(desc)
+        model = dsl.build_lcm_model(desc if U == 1.0 else _scaled_utility(desc, U))
         fsolve, _ = pipeline.get_lcm_function(model, "solve")
         fsim, _ = pipeline.get_lcm_function(model, "simulate")
         fboth, _ = pipeline.get_lcm_function(model, "solve_and_simulate")
-        sol = [np.asarray(a) for a in fsolve(dsl.lcm_params(params))]
-        df1 = simcheck.simulate_once(fsim, params, init, sol, seed=seed)
-        df2 = simcheck.simulate_once(fboth, params, init, None, seed=seed)
+        sol_raw = [np.asarray(a) for a in fsolve(dsl.lcm_params(params))]
+        sol = [a / U for a in sol_raw]
+        df1 = unscale(simcheck.simulate_once(fsim, params, init, sol_raw, seed=seed))
+        df2 = unscale(simcheck.simulate_once(fboth, params, init, None, seed=seed))
+        if U != 1.0:
+            cnt["c06_unit_scaled_models"] = 1
     except Exception as e:  # noqa: BLE001
         res["violations"].append({"key": pipeline.exc_key(e, "solve_or_simulate"), "what": pipeline.exc_text(e)})
         res["status"] = "violated"
@@ -100,9 +126,10 @@ def run_case(case):
     p2 = gen.perturb_params(rng, params, desc.get("frozen_params", ()))
     if ref.supported(ref.solve(p2))[0]:
         try:
-            sol2 = [np.asarray(a) for a in fsolve(dsl.lcm_params(p2))]
-            df3 = simcheck.simulate_once(fsim, p2, init, sol2, seed=seed)
-            df4 = simcheck.simulate_once(fboth, p2, init, None, seed=seed)
+            sol2_raw = [np.asarray(a) for a in fsolve(dsl.lcm_params(p2))]
+            sol2 = [a / U for a in sol2_raw]
+            df3 = unscale(simcheck.simulate_once(fsim, p2, init, sol2_raw, seed=seed))
+            df4 = unscale(simcheck.simulate_once(fboth, p2, init, None, seed=seed))
             cnt["c06_second_calls"] = 1
             bad2 = simcheck.frames_equal(df3, df4, tol=1e-12)
             cnt["c06_frames_compared"] += 1
